@@ -52,8 +52,68 @@ def check(chk: Check) -> None:
     _r5(chk, R5, rootq)
     # --------------------------------------------------------------- R6 / R7
     common.lambda_bodies_charged(chk, R6)
+    _state_handed_down(chk, R4)
+    _callbacks_run_inside_the_call(chk, R6)
     common.state_does_not_escape(chk, R7)
     _r8(chk, R8)
+
+
+def _state_handed_down(chk: Check, R4: str) -> None:
+    """Every evaluation of a child node receives the very state object the parent was given (one counter per eval call)."""
+    F = chk.facts
+    for cls in om.op_classes(F):
+        if not om.own_eval(F, cls):
+            continue
+        q = cls + '.eval'
+        selft = ('param', om.self_param(F, q))
+        stt = ('param', om.state_param(F, q))
+        n = 0
+        odd = {}
+        for p in om.eval_paths(F, cls):
+            for e in p.events:
+                if om.is_child_eval(e, selft, stt) and len(e.args) == 1:
+                    n += 1
+                    if freeze(e.args[0]) != stt:
+                        odd['`%s`' % e.text()] = show(e.args[0])
+        if n:
+            chk.require(not odd, R4, '%s hands its state down' % q, F.func(q).where,
+                        '; '.join('%s evaluates a child with %s, not with the state the node was given' % kv for kv in sorted(odd.items()))
+                        or '%d child evaluation(s) receive the state parameter itself' % n)
+
+
+def _callbacks_run_inside_the_call(chk: Check, R6: str) -> None:
+    """A builtin that is handed a callable (a lambda of the program) runs it before it returns: what it returns is not a lazy
+    iterator (map / filter / zip / generator / itertools.*) that would call the lambda after eval has returned - outside the budget."""
+    F = chk.facts
+    from .c02 import Kinds
+    from .. import functab
+    tab = functab.table(F)
+    n = 0
+    for key in sorted(tab):
+        ent = tab[key]
+        if ent.kind != 'fn':
+            continue
+        fi = ent.funcinfo(F)
+        if fi is None or not isinstance(fi.node, ast.FunctionDef):
+            continue
+        params = {a.arg for a in fi.node.args.args + fi.node.args.kwonlyargs}
+        ks = Kinds(F, params)
+        lazy = {}
+        for p in SymExec(F, fi).run():
+            if not p.normal:
+                continue
+            try:
+                kk = ks.kind(p.outcome[1])
+            except Exception:
+                continue
+            if kk == 'iterator' and any(om.mentions(freeze(p.outcome[1]), ('param', a)) for a in params):
+                lazy[show(p.outcome[1])[:90]] = kk
+        n += 1
+        if lazy:
+            chk.bad(R6, 'FUNCTIONS[%r] runs its callbacks before it returns' % key, fi.where,
+                    'returns the lazy iterator `%s`: the work (and every call of a lambda handed in) happens when the host consumes '
+                    'it, after eval returned and outside the op budget' % sorted(lazy)[0])
+    chk.ok(R6, 'builtins return finished values', F.modules[functab.FUNCS_MOD].rel, '%d table functions examined for lazy results' % n)
 
 
 def _r8(chk: Check, R8: str) -> None:
